@@ -414,6 +414,9 @@ mod imp {
         mop!(t, "Mat2::from_mat3a_minor(all 9)", |a, m| o([0usize, 1, 2].map(|i| [0usize, 1, 2].map(|j| Mat2::from_mat3a_minor(a, i, j).to_cols_array()))));
         mop!(t, "Affine2::from_mat3a", |a, m| o(Affine2::from_mat3a(a)));
         mop!(t, "eq", |a, m| o((a == m.m[0], a == a, a != m.m[1])));
+        // against a copy rebuilt from the visible elements (its padding lanes are whatever the
+        // constructor leaves there): a shortcut that compares whole registers would show here
+        mop!(t, "eq(rebuilt copy)", |a, m| { let c = Mat3A::from_cols_array(&a.to_cols_array()); o((a == c, c == a, a != c, a.abs_diff_eq(c, 0.0))) });
         mop!(t, "abs_diff_eq", |a, m| o((a.abs_diff_eq(m.m[0], 100.0), a.abs_diff_eq(a, 0.0))));
         mop!(t, "is_*", |a, m| o((a.is_finite(), a.is_nan())));
         mop!(t, "strings", |a, m| o(string_of(&a)));
@@ -442,6 +445,7 @@ mod imp {
         aop!(t, "write_cols_to_slice", |a, m| { let mut b = [7.0f32; 14]; a.write_cols_to_slice(&mut b); o(b) });
         aop!(t, "to_scale_rotation_translation", |a, m| o(a.to_scale_rotation_translation()));
         aop!(t, "eq", |a, m| o((a == m.a[0], a == a, a != m.a[1])));
+        aop!(t, "eq(rebuilt copy)", |a, m| { let c = Affine3A::from_cols_array(&a.to_cols_array()); o((a == c, c == a, a != c)) });
         aop!(t, "abs_diff_eq", |a, m| o((a.abs_diff_eq(m.a[0], 100.0), a.abs_diff_eq(a, 0.0))));
         aop!(t, "is_*", |a, m| o((a.is_finite(), a.is_nan())));
         aop!(t, "strings", |a, m| o(string_of(&a)));
